@@ -285,6 +285,13 @@ impl<'src, T: SymTok> ValueInput<'src> for SymIn<T> {
         Self::next_maybe(cache, cursor)
     }
 }
+/// Borrowed tokens: the symbolic input has no backing buffer, so each delivered token is placed in a
+/// leaked box (harness only); which token is delivered where is still decided by the memo above.
+impl<'src, T: SymTok> crate::input::BorrowInput<'src> for SymIn<T> {
+    unsafe fn next_ref(cache: &mut SymCache<T>, cursor: &mut usize) -> Option<&'src T> {
+        Self::next_maybe(cache, cursor).map(|t| &*alloc::boxed::Box::leak(alloc::boxed::Box::new(t)))
+    }
+}
 impl<'src, T: SymTok> ExactSizeInput<'src> for SymIn<T> {
     unsafe fn span_from(cache: &mut SymCache<T>, r: RangeFrom<&usize>) -> SimpleSpan<usize> {
         (*r.start..cache.len).into()
@@ -663,6 +670,19 @@ pub fn ok_with<M: VMode, T: Copy + PartialEq>(r: &PResult<M, T>, v: T) -> bool {
         Err(()) => false,
     }
 }
+
+/// How every harness enters the parser under contract: through `Mode::invoke`, i.e. through the
+/// `go_emit` / `go_check` entry points that `&P`, `Boxed`, `Recursive` and `dyn Parser` dispatch to and
+/// that must behave as `go::<M>` (C04/C13: the dispatch path is not observable). With the
+/// macro-generated `go_emit` / `go_check` this is `go::<M>` itself, so the statically composed path is
+/// the code under proof as well.
+pub trait GoVia<'src, I: Input<'src>, O, E: ParserExtra<'src, I>>: Parser<'src, I, O, E> {
+    #[inline(always)]
+    fn gov<M: Mode>(&self, inp: &mut InputRef<'src, '_, I, E>) -> PResult<M, O> {
+        M::invoke(self, inp)
+    }
+}
+impl<'src, I: Input<'src>, O, E: ParserExtra<'src, I>, P: Parser<'src, I, O, E> + ?Sized> GoVia<'src, I, O, E> for P {}
 
 // ---------------------------------------------------------------------------------------------
 // Contract stub for a child parser. May do anything the parser contract allows and logs it.
